@@ -264,7 +264,7 @@ def compare_run(pool: Pool, recs, err, steps, tally, init_proj=None, init_st=Non
         ev = steps[i][0] if i < len(steps) else {"op": "?"}
         owner = "C08" if ev["op"] == "endbar" else "C05"
         return [MM(owner, "run_raises", f"Actuator.run raised {err} at event {i} ({ev['op']})")], i
-    prev_proj = init_proj if init_proj is not None else {"w": pool.w0, "pos": {}}
+    prev_proj = init_proj if init_proj is not None else {"w": pool.w0, "pos": {}, "lent": []}
     prev_st = {"pos": {tuple(k): v for k, v in init_st["pos"].items()}} if init_st else None
     for i, ((ev, out, ret, st), rec) in enumerate(zip(steps, recs)):
         mm = []
